@@ -143,6 +143,161 @@ theorem roundHalfEven_zero : roundHalfEven 0 = 0 := by
   have : ((0 : Int) : Rat) = 0 := rfl
   rw [this, if_pos (by grind)]
 
+/-! ## C09 (session 4): prefixed logs / tables, `index_online` re-basing, empty parts -/
+
+theorem joinLogsFrom_mem (m : Meas) (nl : String × List String) (hl : nl ∈ m.logs) :
+    ∀ (l : List Meas) (b i : Nat), l[i]? = some m →
+      (srcPrefix (b + i) ++ nl.1, nl.2) ∈ joinLogsFrom b l := by
+  intro l
+  induction l with
+  | nil => intro b i h; simp at h
+  | cons x r ih =>
+    intro b i h
+    cases i with
+    | zero =>
+      simp at h; subst h
+      simp only [joinLogsFrom, List.mem_append]
+      left
+      simp only [prefixedLogs, List.mem_map]
+      exact ⟨nl, hl, rfl⟩
+    | succ i =>
+      simp only [joinLogsFrom, List.mem_append]
+      right
+      have := ih (b + 1) i (by simpa using h)
+      rwa [show b + 1 + i = b + (i + 1) by omega] at this
+
+theorem foldl_appendMeas_indexOnline (feats : List Feat) (t0 : Rat)
+    (hf : Feat.indexOnline ∈ feats) :
+    ∀ (rest : List Meas) (out : Feat → List Rat),
+      (rest.foldl (appendMeas feats t0) out) .indexOnline =
+        rebaseAll (out .indexOnline) (rest.map (fun m => m.col .indexOnline)) := by
+  intro rest
+  induction rest with
+  | nil => intro out; rfl
+  | cons m r ih =>
+    intro out
+    rw [List.foldl_cons, ih]
+    simp only [List.map_cons, rebaseAll, List.foldl_cons]
+    congr 1
+    simp only [appendMeas, hf, if_true, shiftCol, rebaseStep, rebaseBase]
+
+theorem rebaseAll_prefix (blocks : List (List Rat)) :
+    ∀ first : List Rat, ∃ t, rebaseAll first blocks = first ++ t ∧
+      t.length = (blocks.map List.length).sum := by
+  induction blocks with
+  | nil => intro first; exact ⟨[], by simp [rebaseAll], rfl⟩
+  | cons b r ih =>
+    intro first
+    obtain ⟨t, ht, hl⟩ := ih (rebaseStep first b)
+    refine ⟨b.map (· + rebaseBase first) ++ t, ?_, ?_⟩
+    · simp only [rebaseAll, List.foldl_cons] at ht ⊢
+      rw [ht]; simp [rebaseStep, List.append_assoc]
+    · simp [hl]
+
+theorem sorted_le_getLast (l : List Rat) (h : l.Pairwise (· ≤ ·)) (x : Rat)
+    (hx : l.getLast? = some x) : ∀ a ∈ l, a ≤ x := by
+  obtain ⟨ys, rfl⟩ := List.getLast?_eq_some_iff.mp hx
+  intro a ha
+  rw [List.pairwise_append] at h
+  rcases List.mem_append.mp ha with h1 | h1
+  · exact h.2.2 a h1 x (by simp)
+  · simp at h1; subst h1; exact Rat.le_refl
+
+theorem rebaseStep_sorted (acc c : List Rat) (ha : acc.Pairwise (· ≤ ·))
+    (hc : c.Pairwise (· ≤ ·)) (hn : ∀ v ∈ c, 0 ≤ v) : (rebaseStep acc c).Pairwise (· ≤ ·) := by
+  unfold rebaseStep
+  rw [List.pairwise_append]
+  refine ⟨ha, ?_, ?_⟩
+  · rw [List.pairwise_map]
+    exact hc.imp (by intro a b hab; grind)
+  · intro a ha' b hb
+    simp only [List.mem_map] at hb
+    obtain ⟨v, hv, rfl⟩ := hb
+    have hv0 := hn v hv
+    unfold rebaseBase
+    cases hl : acc.getLast? with
+    | none =>
+      rw [List.getLast?_eq_none_iff] at hl
+      subst hl
+      simp at ha'
+    | some l =>
+      have := sorted_le_getLast acc ha l hl a ha'
+      simp only
+      grind
+
+theorem rebaseAll_sorted (blocks : List (List Rat)) :
+    ∀ first : List Rat, first.Pairwise (· ≤ ·) →
+      (∀ b ∈ blocks, b.Pairwise (· ≤ ·) ∧ ∀ v ∈ b, 0 ≤ v) →
+      (rebaseAll first blocks).Pairwise (· ≤ ·) := by
+  induction blocks with
+  | nil => intro first h _; simpa [rebaseAll] using h
+  | cons b r ih =>
+    intro first h hb
+    have hb0 := hb b (List.mem_cons_self ..)
+    simp only [rebaseAll, List.foldl_cons]
+    exact ih _ (rebaseStep_sorted first b h hb0.1 hb0.2)
+      (fun b' hb' => hb b' (List.mem_cons_of_mem _ hb'))
+
+theorem lt_numFiles_mul (N s i : Nat) (hs : 0 < s) (hi : i < numFiles N s) : i * s < N := by
+  unfold numFiles at hi
+  have h1 := Nat.div_add_mod N s
+  have h2 := Nat.mod_lt N hs
+  by_cases h0 : N % s = 0
+  · simp only [h0, if_true, Nat.add_zero] at hi
+    have h3 : (i + 1) * s ≤ (N / s) * s := Nat.mul_le_mul_right s hi
+    rw [Nat.mul_comm (N / s) s, Nat.add_mul] at h3
+    omega
+  · simp only [h0, if_false] at hi
+    have h3 : i * s ≤ (N / s) * s := Nat.mul_le_mul_right s (by omega)
+    rw [Nat.mul_comm (N / s) s] at h3
+    omega
+
+theorem window_ne_nil (N s i : Nat) (hs : 0 < s) (hi : i < numFiles N s) : window N s i ≠ [] := by
+  have h := lt_numFiles_mul N s i hs hi
+  intro hw
+  have hl := congrArg List.length hw
+  simp only [window, List.length_take, List.length_drop, List.length_range, List.length_nil] at hl
+  omega
+
+theorem two_le_numFiles (N s : Nat) (hs : 0 < s) (hsN : s < N) : 2 ≤ numFiles N s := by
+  have hcover := numFiles_cover N s hs
+  rcases Nat.lt_or_ge (numFiles N s) 2 with h | h
+  · exfalso
+    have : numFiles N s * s ≤ 1 * s := Nat.mul_le_mul_right s (by omega)
+    omega
+  · exact h
+
+theorem firstEmpty_none_iff (l : List (List Nat)) :
+    firstEmpty l = none ↔ ∀ p ∈ l, p ≠ [] := by
+  induction l with
+  | nil => simp [firstEmpty]
+  | cons p r ih =>
+    cases p with
+    | nil => simp [firstEmpty]
+    | cons a t => simp [firstEmpty, ih]
+
+theorem firstEmpty_some (l : List (List Nat)) : ∀ k, firstEmpty l = some k →
+    l[k]? = some [] ∧ ∀ i, i < k → ∃ p, l[i]? = some p ∧ p ≠ [] := by
+  induction l with
+  | nil => intro k h; simp [firstEmpty] at h
+  | cons p r ih =>
+    intro k h
+    cases p with
+    | nil =>
+      simp [firstEmpty] at h
+      subst h
+      exact ⟨rfl, fun i hi => absurd hi (Nat.not_lt_zero i)⟩
+    | cons a t =>
+      simp only [firstEmpty, List.isEmpty_cons, Bool.false_eq_true, if_false,
+        Option.map_eq_some_iff] at h
+      obtain ⟨k', hk', rfl⟩ := h
+      obtain ⟨h1, h2⟩ := ih k' hk'
+      refine ⟨by simpa using h1, ?_⟩
+      intro i hi
+      cases i with
+      | zero => exact ⟨a :: t, rfl, by simp⟩
+      | succ i => simpa using h2 i (by omega)
+
 /-! ## C10: the protocol automaton -/
 
 theorem get_filter_ne (fs : FS) (p q : Path) :
